@@ -12,7 +12,7 @@ RULE = ('histories: 4-9 write operations over a pool of 2-4 rich caption sets (s
         'objects (all eight writers with option combinations, write(lang=) / write(force=)), each operation on a '
         'shared or a fresh writer object; the input is dumped before and after every call (also when the call '
         'raises), and every output is compared with the bytes a fresh writer produces in pristine child '
-        'processes under PYTHONHASHSEED 1 and 12345. Every second history is over variants of ONE document (same '
+        'processes under two PYTHONHASHSEED values drawn per case from a pool of 16. Every second history is over variants of ONE document (same '
         'absolute-unit layout at caption / span / language / set level, same class names defined differently) '
         'written by writers of one class that differ only in the video size. Fault cases: for one (writer, set) the distinct pycaption '
         'source lines reached during write() are traced and an InjectedFault is raised at each (quick: a '
@@ -337,7 +337,7 @@ def check(case, ctx):
             cfg = case['cfgs'][op['cfg']]
             jobs.append({'op': 'write', 'writer': cfg['writer'], 'opts': cfg['opts'], 'write_kwargs': op['kw'],
                          'set': case['sets'][op['set']]})
-    for seed in ('1', '12345'):
+    for seed in worker.seeds_for(case, 2):
         ref = worker.run_jobs(jobs, hashseed=seed)
         ctx.count('child_processes')
         for k, op in enumerate(case['ops']):
